@@ -10,6 +10,7 @@ import (
 	"io"
 	"net"
 	"sort"
+	"strings"
 	"time"
 
 	"github.com/vapourismo/knx-go/knx"
@@ -598,4 +599,85 @@ func c20Truncated(discover bool) func() {
 func init() {
 	register("both", &h.Scenario{Name: "C20-describe-behind-every-truncation-of-other-frames", Prop: "C20", Cfg: mc.Config{SpinLimit: 400}, P: 0, F: 0, D: -1, Run: c20Truncated(false), Check: c20Oracle(false)})
 	register("both", &h.Scenario{Name: "C20-discover-behind-every-truncation-of-other-frames", Prop: "C20", Cfg: mc.Config{SpinLimit: 400}, P: 0, F: 0, D: -1, Run: c20Truncated(true), Check: c20Oracle(true)})
+}
+
+// c20DiscoverBesideRouter: the application holds a router client on the multicast group (or runs a
+// second discovery) while it discovers: sockets on the group's port are shared between listeners,
+// and the call under test returns the responses it received all the same.
+func c20DiscoverBesideRouter() func() {
+	return func() {
+		timeout := 500 * ms
+		w := vnet.Reset()
+		var eps []*vnet.Endpoint
+		w.OnCreate = func(e *vnet.Endpoint) { eps = append(eps, e) }
+		other := mc.Choose(2, mc.Free)
+		var closeOther func()
+		if other == 0 {
+			r, err := knx.NewRouter("224.0.23.12:3671", knx.RouterConfig{})
+			if err != nil {
+				mc.Log(Note("router failed: " + err.Error()))
+				return
+			}
+			closeOther = r.Close
+		} else {
+			s, err := knxnet.ListenRouter("224.0.23.12:3671")
+			if err != nil {
+				mc.Log(Note("listener failed: " + err.Error()))
+				return
+			}
+			closeOther = func() { s.Close() }
+		}
+		evs := []Ev{{10 * ms, "resp", 0x1101, 1}, {20 * ms, "resp", 0x1102, 2}}
+		w.OnCreate = func(e *vnet.Endpoint) {
+			eps = append(eps, e)
+			started := false
+			e.OnWrite = func(wr vnet.WriteRec) {
+				if !started {
+					started = true
+					c20Schedule(e, evs, true)
+				}
+			}
+		}
+		t0 := mc.Now()
+		res, err := knx.DiscoverOnInterface(nil, "224.0.23.12:3671", timeout)
+		ret := CallRet{Timeout: timeout, What: fmt.Sprintf("Discover(timeout=%v) beside an open listener on the group", timeout), Err: errStr(err), T0: t0}
+		for _, r := range res {
+			ret.IAs = append(ret.IAs, uint16(r.DescriptionB.DeviceHardware.Source))
+			ret.Content = append(ret.Content, devContent(r.DescriptionB.DeviceHardware.FriendlyName, r.DescriptionB.SupportedServices.Families))
+		}
+		if len(eps) > 1 {
+			ep := eps[len(eps)-1]
+			ret.Closed = ep.Closed
+			for _, wr := range ep.Writes {
+				ret.Writes = append(ret.Writes, hex.EncodeToString(wr.Data))
+			}
+		} else {
+			ret.Closed = true // no socket was opened by the call
+		}
+		mc.Log(ret)
+		closeOther()
+		mc.Sleep(timeout + 5*ms)
+		censusNote()
+	}
+}
+
+func c20BesideOracle(tr *mc.Trace) []h.Violation {
+	vs := generic(tr, "C20", true)
+	for _, e := range tr.Log {
+		switch x := e.V.(type) {
+		case Note:
+			if strings.Contains(string(x), "failed: ") {
+				vs = append(vs, h.Violation{Class: "C20:beside-a-listener:setup", Msg: string(x)})
+			}
+		case CallRet:
+			if x.Err != "" || fmt.Sprint(x.IAs) != fmt.Sprint([]uint16{0x1101, 0x1102}) {
+				vs = append(vs, h.Violation{Class: "C20:beside-a-listener:discover-results", Msg: fmt.Sprintf("%s returned %#x, error %q; two search responses arrived 10 and 20 ms after the request", x.What, x.IAs, x.Err)})
+			}
+		}
+	}
+	return vs
+}
+
+func init() {
+	register("both", &h.Scenario{Name: "C20-discover-beside-an-open-listener-on-the-group", Prop: "C20", Cfg: mc.Config{SpinLimit: 400}, P: 0, F: 0, D: -1, Run: c20DiscoverBesideRouter(), Check: c20BesideOracle})
 }
